@@ -92,6 +92,7 @@ type State struct {
 	hash     map[int]*HashState
 	bigv     map[int]*Node
 	randCnt  int
+	greads   map[string]bool // labels of package-level objects read after init
 	pools    map[int][]Val // sync.Pool contents (by pool object): a later Get in the same run hands back what was Put
 	mark     int
 	forced   int // forced choice for next choose() (-1 none)
@@ -145,6 +146,10 @@ func (s *State) clone() *State {
 	c.conc = map[int]int64{}
 	for k, v := range s.conc {
 		c.conc[k] = v
+	}
+	c.greads = map[string]bool{}
+	for k, v := range s.greads {
+		c.greads[k] = v
 	}
 	c.pools = map[int][]Val{}
 	for k, v := range s.pools {
@@ -283,6 +288,12 @@ func (x *Exec) load(st *State, p P, t types.Type) Val {
 	n := slotsOf(t)
 	if p.off+n > len(o.slots) {
 		x.fail("load out of object bounds %s off=%d n=%d len=%d", o.label, p.off, n, len(o.slots))
+	}
+	if st.postInit && o.tag == "Global" {
+		if st.greads == nil {
+			st.greads = map[string]bool{}
+		}
+		st.greads[o.label] = true
 	}
 	if isAgg(t) {
 		return A{append([]Val(nil), o.slots[p.off:p.off+n]...)}
